@@ -208,6 +208,7 @@ def run(chk):
     chk.assumptions = ["gen.py's definitional evaluator is the reference semantics (DESIGN.md section 4); evaluations that reach an "
                        "unspecified corner are discarded and counted", "names are unique per program here (shadowing is C04's workload)"]
     chk.floor = 1500
+    chk.rule += '; plus hand-written scenarios (recursion through helper closures, fresh-value semantics of array +, capture-then-shadow)'
     n = 4000 if quick else 150000
     jobs = []
     unspec = {}
